@@ -122,7 +122,8 @@ theorem exits_match : parentGoneTrace = (round consts 0 .parentGone { now := 0, 
     lockGoneTrace = (round consts 0 .lockGone { now := 0, mtime := 0, counter := 1 }).2.2 := by decide
 
 /-- the helper is started with the lock path exactly as the lock uses it and inherits the worker's working directory -/
-theorem helper_started_plainly : popenExtraKwargs = [] ∧ popenPathIsLockPath = true ∧ releaseKillsHelper = true ∧ failKillsHelper = true := by decide
+theorem helper_started_plainly : popenExtraKwargs = [] ∧ popenPathIsLockPath = true ∧ releaseKillsHelper = true ∧ failKillsHelper = true ∧
+    failMarkSurvivesRacingRefresh = true := by decide
 
 example : isFailed consts 1800 0 = true ∧ isFailed consts 1799 0 = false := by decide
 
